@@ -12,7 +12,7 @@ def run(tier, wd):
     binpath = core.build_harness()
     rnd = random.Random(core.seed())
     q = tier == "quick"
-    alphabet = ["c1", "c2", "d1", "a1", "b1", "e2", "get", "x", "-f", "-n=7", "-n=zz", "-g", "zz"] if q else \
+    alphabet = ["c1", "c2", "d1", "a1", "b1", "e2", "get", "one", "deep", "x", "-f", "-n=7", "-n=zz", "-g", "zz"] if q else \
                ["c1", "k1", "c2", "d1", "a1", "b1", "bb", "e1", "e2", "x", "-f", "-n=7", "-n=zz", "-n", "-g", "--", "zz", "--force=maybe"]
     trs, rows = tc.run_tree(rep, wd, binpath, alphabet, 3 if q else 4, ["continue", "exit", "panic"], "c07")
     kinds, by_level = {}, {}
@@ -36,11 +36,28 @@ def run(tier, wd):
             if len(rep.cov["samples"]) < 6 and c["path"] != "app" and rnd.random() < 0.005:
                 rep.cov["samples"].append({"argv": c["argv"], "policy": c["policy"], "specification": "reject at " + c["path"],
                                            "library": {"err": r.get("err"), "exits": r["exits"], "panic": r.get("panic"), "usage": r["usages"][:1], "errors": r["errors"][:1]}})
+    # the outcome is a function of the declarations and the argument vector: an earlier Run on the same application object
+    # (possible for commands that declare nothing) must not change it - in particular not the error policy of a sub command
+    t5 = len(trs) - 1
+    again = [c for c, r in rows if c["ti"] == t5 and c["kind"] in ("reject", "run") and not r.get("skipped")]
+    pres = [[["one"]], [["one", "deep"], ["two"]], [["one", "bogus"]]]
+    extra = [(c, pre) for c in again for pre in pres]
+    res2 = core.run_harness(binpath, "tree", [T.harness_case(trs[t5], c["policy"], c["argv"], pre) for c, pre in extra], wd)
+    for (c, pre), r in zip(extra, res2):
+        rep.cov["evaluations"] += 1
+        if r.get("skipped"):
+            continue
+        js = [j for j in T.judge(c, r) if j[0] in CLAUSES]
+        if js:
+            o = tc.replay_obj(trs, c)
+            o["harness_case"] = T.harness_case(trs[t5], c["policy"], c["argv"], pre)
+            rep.violation("after earlier runs %s on the same application: " % pre + tc.describe(trs, c) + ": " + "; ".join(t for _, t in js), o)
+    rep.cov["rerun_cases"] = len(extra)
     rep.cov["outcome_kinds"] = kinds
     rep.cov["rejections_by_command"] = by_level
     rep.cov["distinct_nontrivial"] = nontriv
     rep.cov["exhaustive"] = True
-    rep.cov["rule"] = ("4 command trees x 3 error policies x every argument vector over %d tokens (sub command names, positionals, declared and undeclared options, "
+    rep.cov["rule"] = ("5 command trees x 3 error policies x every argument vector over %d tokens (sub command names, positionals, declared and undeclared options, "
                        "an Int option with a convertible and an inconvertible value, unknown words) up to length %d: CmdTree.tla says which level rejects (spec mismatch, "
                        "unknown option/word, inconvertible value) or that the invocation is accepted; the library must run nothing, write the error and the usage of "
                        "that command and follow the policy (return error / exit 2 once / panic with the error); accepted invocations return nil. "
